@@ -5,7 +5,7 @@ Y = (-5_879_612, 5_879_612)
 
 def oracle_obs(tier):
     return [Ob('oracle_rd_succ_holds', profiles=('on',), note='oracle sanity'),
-            Ob('oracle_rd_monotone_holds', profiles=('on',), note='oracle sanity', solvers=('cvc5', 'z3new')),
+            Ob('oracle_rd_monotone_holds', profiles=('on',), note='oracle sanity'),
             Ob('oracle_rd_anchors_holds', profiles=('on',), note='oracle sanity'),
             Ob('oracle_ylen_holds', profiles=('on',), note='oracle sanity'),
             Ob('oracle_wd_ymd_holds', profiles=('on',), note='oracle sanity'),
@@ -70,8 +70,33 @@ def c05(tier):
     A = ['days_to_date', 'date_to_days', 'spec_rd/uf']
     return [Ob('c01_days_to_date_holds', slices=[{'d': (-2**31, -1)}, {'d': (0, 2**31 - 1)}], note='contract of days_to_date used below'),
             Ob('c01_date_to_days_holds', note='contract of date_to_days used below'),
-            Ob('oracle_rd_monotone_holds', profiles=('on',), note='oracle sanity', solvers=('cvc5', 'z3new'))] + \
+            Ob('oracle_rd_monotone_holds', profiles=('on',), note='oracle sanity')] + \
            [Ob(f, abstractions=A) for f in fns_of('c05_', 'c05.rs')]
+
+def c07(tier):
+    B = ['days_to_date/bound']
+    return [Ob('c01_days_to_date_holds', slices=[{'d': (-2**31, -1)}, {'d': (0, 2**31 - 1)}], note='days_to_date is total and characterised by its contract: the consistent tuples cover every day'),
+            Ob('oracle_rd_monotone_holds', profiles=('on',), note='order of valid triples == order of days')] + \
+           [Ob(f, abstractions=B) for f in fns_of('c07_', 'c07.rs')]
+
+KERNELS = ['nanos_to_days_nanos', 'days_nanos_to_nanos', 'nanos_to_time']
+def kernel_obs():
+    return [Ob('c03_days_nanos_to_nanos_contract_holds', note='contract of days_nanos_to_nanos used below'),
+            Ob('c03_nanos_to_days_nanos_contract_holds', note='contract of nanos_to_days_nanos used below'),
+            Ob('c03_nanos_to_time_contract_holds', note='contract of nanos_to_time used below')]
+
+def c09(tier):
+    B = ['days_to_date/bound', 'date_to_days', 'spec_rd/uf'] + KERNELS
+    obs = [Ob('c01_days_to_date_holds', slices=[{'d': (-2**31, -1)}, {'d': (0, 2**31 - 1)}], note='days_to_date total; consistent tuples cover every day'),
+           Ob('c01_date_to_days_holds', note='contract of date_to_days used below')] + kernel_obs()
+    signs = [{'d': (-2**31, -2)}, {'d': (-1, 1)}, {'d': (2, 2**31 - 1)}]
+    for f in fns_of('c09_', 'c09.rs'):
+        sl = signs if '_dt_' in f else None
+        if 'day_of_year' in f: obs.append(Ob(f, abstractions=['days_to_date/bound'] + KERNELS, slices=sl))
+        elif '_dt_set_year' in f or '_dt_set_month' in f or '_dt_set_day' in f or 'clear_until_year' in f and '_dt_' in f or 'clear_until_month' in f or 'clear_until_day' in f or '_date_' in f:
+            obs.append(Ob(f, abstractions=B, slices=sl))
+        else: obs.append(Ob(f, abstractions=KERNELS if '_dt_' in f else (), slices=sl))
+    return obs
 
 PROPS = {
     'C01': {'obligations': c01,
@@ -81,7 +106,9 @@ PROPS = {
     'C03': {'obligations': c03, 'bounds': 'all i64 timestamps; all pairs of (day, nanos, offset)', 'outside': ''},
     'C05': {'obligations': c05, 'bounds': 'all 2^32 days x all u32 counts, Date and DateTime (all times of day, offsets)', 'outside': ''},
     'C06': {'obligations': c06, 'bounds': 'all pairs of (day, nanos, offset); all u32 counts for the add-inverse', 'outside': 'months/years (C07)'},
+    'C07': {'obligations': c07, 'bounds': 'all pairs (triples for monotonicity) of days at full range, all times of day; quantified as consistent (day, year, month, day-of-month) tuples', 'outside': 'offsets (months_since ignores them, as day arithmetic does)'},
     'C08': {'obligations': c08, 'bounds': 'all times of day x all u32 counts; all pairs of Times; all Durations', 'outside': ''},
+    'C09': {'obligations': c09, 'bounds': 'all instants with a two-day margin at the range ends x all offsets in (-24h, 24h) x all u32/i32 candidate values', 'outside': 'the two days at each end of the range'},
     'C10': {'obligations': c10, 'bounds': 'all instants with a one-day margin at the range ends x all offsets in (-24h, 24h)', 'outside': 'the x/X zone text (C11); Offset::Local (reads /etc/localtime: C18)'},
     'C15': {'obligations': c15, 'bounds': 'full i32/u32/u64 domain of every parameter', 'outside': 'the rendered message text (std formatting of the tracked min/max/value fields)'},
     'C04': {'obligations': c04, 'bounds': 'all instants x all u32 counts; all Durations (u64 secs, u32 nanos < 10^9)', 'outside': ''},
